@@ -144,8 +144,28 @@ def nonsimple_kind(c):
     return None
 
 
-def region(prop, c):
+def exercised_kind(c):
+    """the recorded finding D6 is about values that *reach* a variadic or positional-only parameter (surplus positionals,
+    surplus names, a value for a parameter before `/`) and about calls that do not bind; a call to such a signature that gives
+    the variadic parameters nothing behaves like a call to a plain signature and is outside the recorded region"""
     k = nonsimple_kind(c)
+    if not k:
+        return None
+    m = the_method(c)
+    kinds = {p['k'] for p in m['sig'] if not (p['n'] == m.get('ctx') and not m.get('view'))}
+    if 'po' in kinds:
+        return k
+    kind, want = reference(c)
+    if kind == 'error':
+        return k
+    for p in m['sig']:
+        if p['k'] in ('vp', 'vk') and want.get(p['n']):
+            return k
+    return None
+
+
+def region(prop, c):
+    k = exercised_kind(c)
     return f'sig-kind:{k}' if k and prop in ('C04',) else None
 
 
@@ -226,7 +246,7 @@ def oracle(prop, c, out):
     if prop != 'C04':
         return f
     kind, want = reference(c)
-    k = nonsimple_kind(c)
+    k = exercised_kind(c)
     key_base = f'sig-kind:{k}' if k else None
     for half in HALVES:
         o = out[half]
